@@ -12,6 +12,7 @@ Payloads are described compactly on the op line and expanded identically on both
 Long byte strings are compared as  #<len>:<crc32>:<first 8 bytes hex>.
 """
 import functools
+import os
 import signal
 import zlib
 
@@ -25,6 +26,7 @@ THEOREMS = [
     (NS + "C18_server_frames_rfc", "full"),
     (NS + "C18_lib_frames_rfc", "full"),
     (NS + "C18_close_frame_rfc", "full"),
+    (NS + "C18_write_too_long", "full"),
     (NS + "C18_boundaries", "full"),
     (NS + "C18_open_not_wire", "witness"),
     (NS + "C18_mask_involution", "full"),
@@ -35,7 +37,14 @@ THEOREMS = [
     (NS + "C18_stream", "full"),
     (NS + "C18_stream_deliveries", "full"),
     (NS + "C18_stream_prefix", "full"),
+    (NS + "C18_hasFrame_literal", "full"),
     (NS + "C18_handler_rejects", "full"),
+    (NS + "C18_segmentation_invariant", "full"),
+    (NS + "C18_chunkings_agree", "full"),
+    (NS + "C18_client_stream_no_error", "full"),
+    (NS + "C18_parse_local", "full"),
+    (NS + "C18_send_rfc", "full"),
+    (NS + "C18_utf8_exact", "full"),
 ]
 ASSUMPTIONS = [
     "the flag attributes fin/rsv1..3/mask of a WebSocketFrame hold 0 or 1 and flags.opcode is a WebSocketOpCode "
@@ -50,7 +59,9 @@ ASSUMPTIONS = [
 RULE = ("frame layer: library frame objects for every payload length of the tier's length set x every opcode of the "
         "enum x mask on/off x random key/fin/rsv, written with writeFrameFactory and re-read with readFrameFactory; "
         "static constructors; the independent RFC encoding + trailing bytes through the reader; malformed/truncated "
-        "byte strings. handler layer: streams of 1-40 frames cut at every single cut point, every pair of cut points "
+        "byte strings (reader and hasFrame()); header-level sweep of every payload_length 0..70000 (thorough; "
+        "boundaries +-2 and 300 random in quick) through serializeHeader/serializeDataHeader, the reader and "
+        "hasFrame(). handler layer: streams of 1-40 frames cut at every single cut point, every pair of cut points "
         "(short streams), byte by byte, at random points (long streams, frames up to 70000 bytes), many frames per "
         "read, through Channel.dataReceived -> WebSocketTemporaryHandler with a fake request; malformed streams "
         "(unmasked, bad opcode, invalid UTF-8) and send()/close() interleaved. non-trivial = an extended length "
@@ -411,6 +422,13 @@ class Impl:
                     self.check_parsed(fail, idx, res, d, d["pl"], len(d["extra"]))
             elif op == "parse":
                 out.append(self.show_frame("parse", self.read(expand("h:" + fields(w[1:])["hex"]))))
+            elif op == "hf":
+                rb = H.WebSocketTemporaryRingBuffer(FakeRequest([]))
+                rb._push(expand("h:" + fields(w[1:])["hex"]))
+                try:
+                    out.append("hf %d" % (1 if rb.hasFrame() else 0))
+                except Exception as e:  # noqa
+                    out.append("hf err:" + type(e).__name__)
             elif op == "hnew":
                 hs = self.new_handler()
                 fed = 0
@@ -567,6 +585,7 @@ def gen_malformed_parse(rng, cid):
             ext = v.to_bytes(2, "big") if rng.random() < 0.6 else v.to_bytes(8, "big")
             b = bytes([0x80 | rng.choice([1, 2, 8, 9, 10]), (128 * m) | (126 if len(ext) == 2 else 127)]) + ext + body
         lines.append("parse hex=%s" % hexd(b))
+        lines.append("hf hex=%s" % hexd(b))
     lines.append("end")
     return lines
 
@@ -592,8 +611,22 @@ def bad_item(rng):
     if r < 0.55:    # opcode outside the enum (continuation 0, reserved 3-7, 11-15)
         opv = rng.choice([0, 3, 4, 5, 6, 7, 11, 12, 13, 14, 15])
         return "x:" + rfc_encode(1, 0, opv, 1, rkey(rng), expand("g:%d:1" % rng.randrange(5))).hex()
-    if r < 0.85:    # Text with invalid UTF-8
+    if r < 0.7:     # Text with invalid UTF-8
         return "f:Text:1:0:1:%s:h:%s" % (rkey(rng).hex(), rng.choice(BAD_UTF8))
+    if r < 0.9:     # Text: random scalar values around the encoding-length and surrogate boundaries, then damaged
+        cps = [rng.choice([0, 0x7F, 0x80, 0x7FF, 0x800, 0xFFF, 0x1000, 0xCFFF, 0xD000, 0xD7FF, 0xE000, 0xFFFF,
+                           0x10000, 0x3FFFF, 0x40000, 0xFFFFF, 0x100000, 0x10FFFF, rng.randrange(0x800),
+                           rng.randrange(0xE000, 0x110000)]) for _ in range(rng.randint(1, 4))]
+        b = bytearray("".join(chr(c) for c in cps).encode("utf-8"))
+        k = rng.random()
+        if k < 0.35 and b:
+            b[rng.randrange(len(b))] = rng.choice([0x7F, 0x80, 0x8F, 0x90, 0x9F, 0xA0, 0xBF, 0xC0, 0xC1, 0xC2, 0xDF,
+                                                   0xE0, 0xED, 0xEF, 0xF0, 0xF4, 0xF5, 0xFF, rng.randrange(256)])
+        elif k < 0.55 and b:
+            del b[rng.randrange(len(b))]
+        elif k < 0.7:
+            b.insert(rng.randrange(len(b) + 1), rng.randrange(0x80, 0x100))
+        return "f:Text:1:0:1:%s:h:%s" % (rkey(rng).hex(), hexd(bytes(b)))
     return "x:" + hexd(bytes(rng.randrange(256) for _ in range(rng.randint(1, 6))))
 
 
@@ -648,6 +681,68 @@ def gen_random_cut_case(rng, cid, nframes, sizes, chunk_sizes, bad=0.0, api=0.0)
     return lines
 
 
+def replay_case(ctx, obj):
+    """./check C18 --replay FILE : re-run the replay's case on the real code (with the monitors) and on the model"""
+    r = obj.get("replay") if isinstance(obj.get("replay"), dict) else {}
+    case = r.get("case")
+    if not case and obj.get("disagreements"):
+        case = obj["disagreements"][0].get("case")
+    if not case:
+        print("replay file holds no case")
+        return 2
+    impl = Impl()
+    out = impl.run_case(case, ctx)
+    try:
+        model = core.split_cases(ctx.lean("C18", case)).get(core.case_id(case))
+    except core.LeanUnavailable as e:
+        model = None
+        print("model unavailable: %s" % e)
+    answering = [ln for ln in case[1:] if ln.split() and ln.split()[0] not in ("hnew", "end")]
+    for i, ln in enumerate(answering):
+        a = out[i] if i < len(out) else "<none>"
+        b = model[i] if model is not None and i < len(model) else "<none>"
+        print("op    %s" % ln[:200])
+        print("impl  %s" % a)
+        print("model %s%s" % (b, "" if a == b else "     <-- differs"))
+    for f in ctx.failures:
+        print("MONITOR %s: %s" % (f["kind"], f["what"]))
+    return 1 if (ctx.failures or model != out) else 0
+
+
+def load_corpus():
+    """minimised past disagreements / defect witnesses (harness/corpus/C18/*.ops), run first"""
+    d = os.path.join(core.HERE, "corpus", PROP)
+    frame, handler = [], []
+    if os.path.isdir(d):
+        for fn in sorted(os.listdir(d)):
+            if not fn.endswith(".ops"):
+                continue
+            with open(os.path.join(d, fn)) as fh:
+                lines = [ln.strip() for ln in fh if ln.strip() and not ln.startswith("#")]
+            if lines and lines[0].startswith("case ") and lines[-1] == "end":
+                (handler if any(ln == "hnew" for ln in lines) else frame).append(lines)
+    return frame, handler
+
+
+def gen_big_split_case(rng, cid, n, seg):
+    """a frame using the 16/64-bit length form between two small frames, cut inside its header, its
+    extended length, its key, and then every `seg` bytes (a TCP segment size)"""
+    op = rng.choice(["Text", "Binary"])
+    items = [rand_item(rng, [3]), "f:%s:1:0:1:%s:%s" % (op, rkey(rng).hex(), pl_for(rng, op, n)), rand_item(rng, [2])]
+    L = stream_len(items)
+    first = len(item_bytes(items[0]))
+    lines = ["case %s" % cid, "hnew", "stream " + " ".join(items)]
+    left = L
+    for k in (first + 1, 2, 4, 4, 5):     # ends inside: header, ext length, ext length, key, payload
+        lines.append("feed %d" % k)
+        left -= k
+    while left > 0:
+        lines.append("feed %d" % min(seg, left))
+        left -= min(seg, left)
+    lines.append("end")
+    return lines
+
+
 # ----------------------------------------------------------------------------- run
 
 SMALL_BOUNDARY = [0, 1, 2, 3, 4, 5, 124, 125, 126, 127, 128, 129, 130, 254, 255, 256, 257, 299, 300]
@@ -660,9 +755,13 @@ def run(ctx):
     thorough = ctx.tier == "thorough"
     full = [(op, m) for op in ALL_OPS for m in (0, 1)]
 
+    corpus_frame, corpus_handler = load_corpus()
+    ctx.notes["corpus_cases"] = len(corpus_frame) + len(corpus_handler)
+
     # ---- frame layer
-    frame_cases = []
-    small = list(range(0, 301)) if thorough else SMALL_BOUNDARY + sorted(rng.sample(range(6, 299), 12))
+    frame_cases = list(corpus_frame)
+    small = list(range(0, 301)) if thorough else SMALL_BOUNDARY + sorted(
+        rng.sample([v for v in range(6, 299) if v not in SMALL_BOUNDARY], 12))
     for n in small:
         frame_cases.append(gen_length_case(rng, n, full, "s%d" % n))
     if thorough:
@@ -670,14 +769,14 @@ def run(ctx):
             frame_cases.append(gen_length_case(rng, n, full, "B%d" % n))
         for i, n in enumerate(range(65000, 66001)):
             frame_cases.append(gen_length_case(rng, n, [full[(i + ctx.seed) % 12]], "b%d" % n,
-                                               with_ser=(i % 4 == 0), with_rfc=(i % 4 == 2)))
+                                               with_ser=(i % 2 == 0), with_rfc=(i % 2 == 1)))
     else:
         k = ctx.seed
         for n in (65535, 65536):
             frame_cases.append(gen_length_case(rng, n, [full[(k + 1) % 12], full[(k + 6) % 12], ("Binary", 0)],
                                                "B%d" % n))
         for j, n in enumerate((65534, 65537, 70000, rng.randrange(65000, 66001))):
-            frame_cases.append(gen_length_case(rng, n, [full[(k + 3 * j) % 12]], "b%d" % n, with_ser=False,
+            frame_cases.append(gen_length_case(rng, n, [full[(k + 3 * j) % 12]], "b%d-%d" % (j, n), with_ser=False,
                                                with_rfc=(n == 70000)))
     for i in range(ctx.scale(6, 60)):
         frame_cases.append(gen_ctor_case(rng, "c%d" % i, [rng.choice(SMALL_BOUNDARY + [rng.randrange(300)])
@@ -705,12 +804,14 @@ def run(ctx):
             m = (n // 5) % 2
             key = rkey(rng)
             lines.append("ser op=%s fin=1 rsv=0 mask=%d key=%s pl=h:abcd plen=%d" % (op, m, key.hex(), n))
-            lines.append("parse hex=%s" % (rfc_header(1, 0, OPVAL[op], m, key, n) + b"\xab\xcd").hex())
+            hx = (rfc_header(1, 0, OPVAL[op], m, key, n) + b"\xab\xcd").hex()
+            lines.append("parse hex=%s" % hx)
+            lines.append("hf hex=%s" % hx)
         lines.append("end")
         frame_cases.append(lines)
 
     # ---- handler layer
-    hcases = []
+    hcases = list(corpus_handler)
     tiny = [0, 0, 1, 2, 3, 5, 8]
     for i in range(ctx.scale(6, 60)):
         hcases += gen_cut_cases(rng, "cut%d" % i, rng.randint(1, 4), tiny, ctx.scale(40, 400))
@@ -725,9 +826,12 @@ def run(ctx):
         big = sizes + [65535, 65536, rng.choice([65534, 65537, 70000, rng.randrange(65000, 66001)])]
         chunks = rng.choice([[1460], [1460, 2920, 65536], [7, 30000], [100000], [65536, 5]])
         hcases.append(gen_random_cut_case(rng, "R%d" % i, rng.randint(2, 6), big, chunks))
+    for n in ((65535, 65536, 70000) if not thorough else (126, 127, 255, 256, 65534, 65535, 65536, 65537, 70000)):
+        for seg in ((1460,) if not thorough else (536, 1460, 16384, 65536)):
+            hcases.append(gen_big_split_case(rng, "S%d-%d" % (n, seg), n, seg))
     for i in range(ctx.scale(40, 1500)):
         chunks = rng.choice([[1, 2, 3], [1, 5, 17, 64], [50, 200], [100000]])
-        hcases.append(gen_random_cut_case(rng, "m%d" % i, rng.randint(1, 8), tiny + [20, 126],
+        hcases.append(gen_random_cut_case(rng, "bad%d" % i, rng.randint(1, 8), tiny + [20, 126],
                                           chunks, bad=rng.choice([0.0, 0.2, 0.5]), api=rng.choice([0.0, 0.3])))
 
     def nontrivial(case, outs):
